@@ -22,6 +22,8 @@ classes
   io_missing         non-existent file, unknown extension              -> andes.run(cli=True) != 0, load() None
   io_truncated       case file cut at a seeded byte (xlsx/json/raw/m)  -> non-zero exit or exception, never 0
   seq_retry          fail, repair the cause, run again                 -> second run True with exit code 0
+  seq_ok_then_fail   succeed, then make the same System infeasible (loads altered x50 / iteration limit 0 / solver NaN)
+                     and run again                                      -> second run False, dependants refuse
 """
 
 import json
@@ -38,7 +40,7 @@ from dst.world import build_system, case_path, scratch_dir
 
 PROP = 'C17'
 LEVEL = 'fault_enumeration'
-COUNTS = {'quick': 330, 'thorough': 8000}
+COUNTS = {'quick': 350, 'thorough': 8000}
 BUDGET = {'quick': 110, 'thorough': 1500}
 TIMEOUT = 200
 SHRINK_LISTS = []
@@ -77,6 +79,8 @@ def fixed_catalogue():
         out.append({'cls': 'tds_bad_init', 'case': case, 'how': 'handover'})
         out.append({'cls': 'dep_after_pf_fail', 'case': case})
         out.append({'cls': 'seq_retry', 'case': case})
+        for how in ('overload', 'iter_limit', 'nan'):
+            out.append({'cls': 'seq_ok_then_fail', 'case': case, 'how': how})
     out.append({'cls': 'tds_criteria', 'case': 'kundur/kundur_full.xlsx', 'dur': 1.0})
     out.append({'cls': 'tds_criteria', 'case': 'ieee14/ieee14_fault.xlsx', 'dur': 1.5})
     for f in IO_FILES:
@@ -101,14 +105,14 @@ def elaborate(stub):
     r = stream(seed, 'class')
     cls = r.choice(['pf_overload', 'pf_nan', 'pf_iter_limit', 'pf_moderate', 'pf_moderate', 'tds_nan', 'tds_nan', 'tds_collapse',
                     'tds_shrinkt0', 'tds_criteria', 'tds_bad_init', 'dep_after_pf_fail', 'io_truncated', 'io_truncated',
-                    'seq_retry', 'pf_no_slack', 'pf_zero_z'])
+                    'seq_retry', 'pf_no_slack', 'pf_zero_z', 'seq_ok_then_fail', 'seq_ok_then_fail'])
     c = stream(seed, 'case')
     p = {'property': PROP, 'seed': seed, 'cls': cls}
     if cls.startswith('io_'):
         p['file'] = c.choice(IO_FILES)
         p['frac'] = round(c.random(), 4)
         return p
-    dyn = cls.startswith('tds') or cls in ('dep_after_pf_fail', 'seq_retry')
+    dyn = cls.startswith('tds') or cls in ('dep_after_pf_fail', 'seq_retry', 'seq_ok_then_fail')
     p['case'] = gen.pick_case(c, include_big=False)['case'] if dyn else c.choice(SMALL + STATIC)
     if cls == 'pf_overload':
         p['scale'] = c.choice([8.0, 15.0, 40.0, 100.0])
@@ -130,6 +134,11 @@ def elaborate(stub):
         p['dur'] = c.choice([0.6, 1.0, 2.0])
     if cls == 'tds_bad_init':
         p['how'] = c.choice(['handover', 'handover_small', 'param'])
+    if cls == 'seq_ok_then_fail':
+        p['how'] = c.choice(['overload', 'iter_limit', 'nan'])
+        p['scale'] = c.choice([30.0, 50.0, 100.0])
+        p['k'] = c.randint(0, 2)
+        p['between'] = c.choice(['none', 'none', 'tds', 'eig'])
     return p
 
 
@@ -479,6 +488,59 @@ def sc_seq_retry(p, v, probes):
     return [p['case'], bool(r1)]
 
 
+def sc_seq_ok_then_fail(p, v, probes):
+    """succeed -> (optionally use the result) -> make the same System infeasible -> run again: the second run must report failure."""
+    ss = build_system(p['case'], knobs={'TDS.no_tqdm': 1})
+    r1, e1 = call(ss.PFlow.run)
+    if e1 is not None or r1 is not True:
+        return [p['case'], p['how'], 'first_failed']
+    reexamine_pf_success(ss, p['cls'], v, probes)
+    between = p.get('between', 'none')
+    if between == 'eig' and ss.dae.n:
+        call(ss.EIG.run)
+    how = p['how']
+    tap = None
+    if how == 'overload':
+        f = p.get('scale', 50.0)
+        for idx in list(ss.PQ.idx.v):
+            ss.PQ.alter('p0', idx, f * ss.PQ.get('p0', idx))
+            ss.PQ.alter('q0', idx, f * ss.PQ.get('q0', idx))
+    elif how == 'iter_limit':
+        # a perturbed start (flat) that needs more than the allowed single iteration
+        ss.PFlow.config.max_iter = 0
+        ss.PFlow.config.init_tol = 1e-9
+        for idx in list(ss.PQ.idx.v)[:1]:
+            ss.PQ.alter('p0', idx, 1.5 * ss.PQ.get('p0', idx) + 0.1)
+    elif how == 'nan':
+        for idx in list(ss.PQ.idx.v)[:1]:
+            ss.PQ.alter('p0', idx, 1.2 * ss.PQ.get('p0', idx) + 0.05)
+        k = p.get('k', 0)
+        orig = ss.PFlow.solver.solve
+        n = {'i': 0, 'fired': 0}
+
+        def solve(A, b):
+            r = orig(A, b)
+            if n['i'] == k:
+                n['fired'] += 1
+                r = np.full(len(np.ravel(r)), np.nan)
+            n['i'] += 1
+            return r
+        ss.PFlow.solver.solve = solve
+        tap = n
+    r2, e2 = call(ss.PFlow.run)
+    if tap is not None:
+        ss.PFlow.solver.__dict__.pop('solve', None)
+        probes['nan_injected'] = probes.get('nan_injected', 0) + tap['fired']
+        if not tap['fired']:
+            return [p['case'], how, between, 'fault_not_reached']
+    check_failed_pf(ss, r2, e2, p['cls'], v, probes)
+    if r2 is True:
+        reexamine_pf_success(ss, p['cls'], v, probes)
+    elif r2 is False:
+        check_dependants(ss, p['cls'], v, probes)
+    return [p['case'], how, between, bool(r2)]
+
+
 def sc_io_missing(p, v, probes):
     import andes
     d = scratch_dir('c17-')
@@ -553,7 +615,7 @@ SCENARIOS = {
     'pf_overload': sc_pf_overload, 'pf_moderate': sc_pf_moderate, 'pf_nan': sc_pf_nan, 'pf_iter_limit': sc_pf_iter_limit,
     'pf_no_slack': sc_pf_no_slack, 'pf_zero_z': sc_pf_zero_z, 'tds_nan': sc_tds_nan, 'tds_collapse': sc_tds_collapse,
     'tds_shrinkt0': sc_tds_shrinkt0, 'tds_criteria': sc_tds_criteria, 'tds_bad_init': sc_tds_bad_init,
-    'dep_after_pf_fail': sc_dep_after_pf_fail, 'seq_retry': sc_seq_retry, 'io_missing': sc_io_missing,
+    'dep_after_pf_fail': sc_dep_after_pf_fail, 'seq_retry': sc_seq_retry, 'seq_ok_then_fail': sc_seq_ok_then_fail, 'io_missing': sc_io_missing,
     'io_truncated': sc_io_truncated,
 }
 
